@@ -23,9 +23,17 @@ Record oracle := { o_expired : wstate -> list Z; o_ok : wstate -> bool }.
 
 (* handler and anchor writer succeed *)
 Definition failure_free (o : oracle) : Prop := forall s, o_ok o s = true.
-(* every WriteAnchor fails (PrepareTxnFiles may succeed or fail): no cut of the tick succeeds *)
-Definition anchor_fails (o : oracle) : Prop :=
-  forall s, match wpc s with AtAnchor _ _ _ _ _ => o_ok o s = false | _ => True end.
+(* no cut of the tick succeeds: every WriteAnchor fails (PrepareTxnFiles may succeed or fail), AND the handler does not
+   find a whole batch expired.  The second clause is needed since F16: a batch whose operations have all expired is
+   committed without any anchor write (its operations are discarded), so a failing anchor writer alone no longer
+   keeps the queue as it is ([Liveness.anchor_failure_alone_is_not_enough]). *)
+Definition cut_fails (o : oracle) : Prop :=
+  forall s, match wpc s with
+            | AtPrepare _ _ b _ =>
+                o_ok o s = true -> b <> [] -> included (split_batch (fun i => memZ i (o_expired o s)) [] b) <> []
+            | AtAnchor _ _ _ _ _ => o_ok o s = false
+            | _ => True
+            end.
 
 (* the single event the writer thread can perform in each program-counter state *)
 Definition next_ev (o : oracle) (s : wstate) : option event :=
@@ -172,7 +180,14 @@ Proof. intros H. unfold wstep. rewrite H. reflexivity. Qed.
 
 Lemma step_prepare max s tf cf b ver ok ex : wpc s = AtPrepare tf cf b ver ->
   wstep max s (EPrepare ok ex) =
-  if ok then set_pc s (AtAnchor tf cf b ver (split_batch (fun i => memZ i ex) [] b))
+  if ok then
+    let sp := split_batch (fun i => memZ i ex) [] b in
+    match included sp with
+    | [] => {| queue := queue s; wpc := AtReAdd tf cf b ver []; anchored := anchored s;
+               discarded := discarded s ++ expired_ops sp; accepted := accepted s;
+               boundary_seen := boundary_seen s; stuck := stuck s |}
+    | _ :: _ => set_pc s (AtAnchor tf cf b ver sp)
+    end
   else set_pc s (AtNack tf cf b).
 Proof. intros H. unfold wstep. rewrite H. reflexivity. Qed.
 
@@ -241,7 +256,8 @@ Proof.
   - destruct (wpc s) eqn:Epc; try (unfold wstep; rewrite Epc; eapply linv_same_pc; [|exact Hl]; reflexivity).
     rewrite (step_prepare max s tf cf batch ver ok ex Epc).
     unfold linv in Hl. rewrite Epc in Hl.
-    destruct ok; unfold linv, set_pc; cbn [wpc]; [|exact I].
+    destruct ok; [cbv zeta; destruct (included (split_batch (fun i => memZ i ex) [] batch)) as [|i0 ir]|];
+      unfold linv, set_pc; cbn [wpc]; try exact I.
     apply split_additional_lt. exact Hl.
   - destruct (wpc s) eqn:Epc; try (unfold wstep; rewrite Epc; eapply linv_same_pc; [|exact Hl]; reflexivity).
     rewrite (step_anchor max s tf cf batch ver sp ok Epc).
@@ -337,7 +353,19 @@ Proof.
     { unfold work, set_queue. cbn [queue wpc inflight]. rewrite Epc. cbn [inflight length]. rewrite firstn_skipn_length. lia. }
     repeat split; try reflexivity; [lia|]. apply mu_lt; [exact Hwk|]. cbn [wpc set_queue]. rewrite Epc. cbn. lia.
   - injection He as <-. rewrite (step_prepare max s tf cf b ver _ _ Epc).
-    destruct (o_ok o s); apply step_ok_set_pc; rewrite Epc; cbn; try reflexivity; lia.
+    destruct (o_ok o s); [cbv zeta; destruct (included (split_batch (fun i => memZ i (o_expired o s)) [] b)) as [|i0 ir]|].
+    + (* F16: the whole batch expired - it is settled (discarded) without an anchor write *)
+      unfold linv in Hl. rewrite Epc in Hl.
+      assert (Hb : 1 <= length b) by (destruct b; [congruence | cbn; lia]).
+      set (s' := {| queue := queue s; wpc := AtReAdd tf cf b ver []; anchored := anchored s;
+                    discarded := discarded s ++ expired_ops (split_batch (fun i => memZ i (o_expired o s)) [] b);
+                    accepted := accepted s; boundary_seen := boundary_seen s; stuck := stuck s |}).
+      assert (Hwk : work s' < work s).
+      { unfold work, s'. cbn [queue wpc inflight]. rewrite Epc. cbn [inflight length]. lia. }
+      repeat split; try reflexivity; [lia|]. apply mu_lt_work; [exact Hwk|].
+      unfold work, s'. cbn [queue wpc inflight rank length]. lia.
+    + apply step_ok_set_pc; rewrite Epc; cbn; try reflexivity; lia.
+    + apply step_ok_set_pc; rewrite Epc; cbn; try reflexivity; lia.
   - injection He as <-. rewrite (step_anchor max s tf cf b ver sp _ Epc).
     destruct (o_ok o s).
     + unfold linv in Hl. rewrite Epc in Hl.
@@ -437,15 +465,22 @@ Proof.
       * unfold work, set_queue in *. cbn [queue wpc inflight]. rewrite Epc in Heq. cbn [inflight length] in Heq.
         rewrite firstn_skipn_length. lia.
       * exact I.
-    + injection He as <-. rewrite (step_prepare max s tf cf b ver _ _ Epc). rewrite Hff. right. split.
-      * unfold work, set_pc in *. cbn [queue wpc inflight]. rewrite Epc in Heq. exact Heq.
-      * exact I.
+    + injection He as <-. rewrite (step_prepare max s tf cf b ver _ _ Epc). rewrite Hff. cbv zeta.
+      destruct (included (split_batch (fun i => memZ i (o_expired o s)) [] b)) as [|i0 ir].
+      * (* F16: the whole batch expired: it is settled right here *)
+        left. unfold linv in Hl. rewrite Epc in Hl.
+        assert (Hb : 1 <= length b) by (destruct b; [congruence | cbn; lia]).
+        unfold work in *. cbn [queue wpc inflight]. rewrite Epc in Heq. cbn [inflight length] in *. lia.
+      * right. split.
+        -- unfold work, set_pc in *. cbn [queue wpc inflight]. rewrite Epc in Heq. exact Heq.
+        -- exact I.
     + injection He as <-. rewrite (step_anchor max s tf cf b ver sp _ Epc). rewrite Hff. left.
       unfold linv in Hl. rewrite Epc in Hl. unfold work in *. cbn [queue wpc inflight]. rewrite Epc in Heq.
       cbn [inflight] in Heq. lia.
 Qed.
 
-(* -- path invariant of a tick in which every anchor write (or the handler before it) fails -- *)
+(* -- path invariant of a tick in which every cut fails: the handler fails, or it prepares a batch (not all
+      expired) and the anchor write fails -- *)
 Definition transparent_inv (q0 : list qop) (a0 : list anchored_batch) (d0 : list qop) (s : wstate) : Prop :=
   inflight (wpc s) ++ queue s = q0 /\ anchored s = a0 /\ discarded s = d0 /\ not_readd (wpc s).
 
@@ -457,10 +492,10 @@ Proof.
 Qed.
 
 Lemma transparent_step max o q0 a0 d0 s e :
-  anchor_fails o -> transparent_inv q0 a0 d0 s -> next_ev o s = Some e ->
+  cut_fails o -> RInv max s -> transparent_inv q0 a0 d0 s -> next_ev o s = Some e ->
   transparent_inv q0 a0 d0 (wstep max s e).
 Proof.
-  intros Hfail Ht He. pose proof Ht as (Hq & Ha & Hd & Hn). unfold next_ev in He.
+  intros Hfail [_ Hl] Ht He. pose proof Ht as (Hq & Ha & Hd & Hn). unfold next_ev in He.
   destruct (wpc s) as [|tf cf|tf cf p|tf cf n ver|tf cf b ver|tf cf b ver sp|tf cf b ver rest|tf cf b] eqn:Epc.
   - discriminate.
   - injection He as <-. rewrite (step_len max s tf cf Epc).
@@ -476,7 +511,11 @@ Proof.
     unfold transparent_inv, set_queue. cbn [queue wpc inflight anchored discarded]. rewrite firstn_skipn.
     repeat split; assumption.
   - injection He as <-. rewrite (step_prepare max s tf cf b ver _ _ Epc).
-    destruct (o_ok o s); repeat split; assumption.
+    specialize (Hfail s). rewrite Epc in Hfail. unfold linv in Hl. rewrite Epc in Hl.
+    destruct (o_ok o s); [|repeat split; assumption]. cbv zeta.
+    destruct (included (split_batch (fun i => memZ i (o_expired o s)) [] b)) as [|i0 ir];
+      [destruct (Hfail eq_refl Hl eq_refl)|].
+    repeat split; assumption.
   - injection He as <-. rewrite (step_anchor max s tf cf b ver sp _ Epc).
     specialize (Hfail s). rewrite Epc in Hfail. rewrite Hfail. repeat split; assumption.
   - contradiction.
